@@ -511,6 +511,11 @@ class Driver:
                 self.refuse(kind, exc)
                 return False
             hm["tables"][pg]["props"][nm] = vals
+            if rng.random() < 0.3:
+                # an explicit save of the (already stored) hole, e.g. after an attribute edit: nothing else may change
+                h.collar = [float(rng.randint(0, 9)), 1.0, 10.0]
+                self.ws.save_entity(h)
+                rec.see("explicit-saves-of-stored-holes")
             return True
         if kind == "rename":
             if not props:
